@@ -134,10 +134,20 @@ def check(spec, ctx):
     from polyply.src.meta_molecule import MetaMolecule
     import vermouth.forcefield
     (ctx.dir / "sys.top").write_text(TOP)
+    # the process works in another directory that holds an older file of the same name: the include in
+    # sys.top still means the file next to sys.top
+    import os
+    elsewhere = ctx.dir / "elsewhere"
+    elsewhere.mkdir()
+    (elsewhere / "out.itp").write_text("[ moleculetype ]\nmol 1\n[ atoms ]\n1 T1 1 OLD O1 1 0.0 72.0\n")
+    here = os.getcwd()
+    os.chdir(elsewhere)
     try:
         topology = Topology.from_gmx_topfile(str(ctx.dir / "sys.top"), "test")
     except Exception as err:
         raise crash("reread:topology_reader", err)
+    finally:
+        os.chdir(here)
     if len(topology.molecules) != 1:
         raise Violation("reread:molecule_count", f"{len(topology.molecules)} molecules")
     meta = topology.molecules[0]
